@@ -181,6 +181,6 @@ func TestC05(t *testing.T) {
 		return
 	}
 	r.CheckKnown(parts)
-	r.Rapid("histories", r.N(15000, 250000), c05Prop)
-	r.Rapid("server", r.N(400, 8000), c05Server)
+	r.Rapid("histories", r.N(15000, 1000000), c05Prop)
+	r.Rapid("server", r.N(400, 30000), c05Server)
 }
